@@ -508,6 +508,9 @@ class SymInt:
         out = [SymInt._mk(z3.ZeroExt(W - 8, z3.Extract(8 * i + 7, 8 * i, self.e)), 0, 255) for i in range(length)]
         return SymByteArray(out if byteorder == "little" else out[::-1])
 
+    def __divmod__(self, o):
+        return self // o, self % o
+
     def __index__(self):
         """A C boundary needs a machine int (slice bound, repeat count, shift amount): the path splits per feasible
         value, smallest first (found by bisection with the solver, so re-execution meets the same sequence); more than
